@@ -51,7 +51,8 @@ class WsgiRecorder:
             length = 0
         body = environ["wsgi.input"].read(length) if length else b""
         self.log.append(Recorded(method=environ["REQUEST_METHOD"], target=path + ("?" + query if query else ""), path=path, query=query, headers=headers, body=body, at=time.monotonic(), ordinal=len(self.log)))
-        start_response("200 OK", [("Content-Type", "application/json"), ("Content-Length", "2")])
+        # every answer tries to plant state in the client: nothing of it may come back with a later, unrelated case
+        start_response("200 OK", [("Content-Type", "application/json"), ("Content-Length", "2"), ("Set-Cookie", "srvsession=LEAKED-BY-THE-SERVER; Path=/"), ("ETag", '"v1"')])
         return [b"{}"]
 
 
@@ -87,5 +88,5 @@ class AsgiRecorder:
         query = scope.get("query_string", b"").decode("latin-1")
         headers = [(k.decode("latin-1").title(), v.decode("latin-1")) for k, v in scope.get("headers", [])]
         self.log.append(Recorded(method=scope["method"], target=path + ("?" + query if query else ""), path=path, query=query, headers=headers, body=body, at=time.monotonic(), ordinal=len(self.log)))
-        await send({"type": "http.response.start", "status": 200, "headers": [(b"content-type", b"application/json"), (b"content-length", b"2")]})
+        await send({"type": "http.response.start", "status": 200, "headers": [(b"content-type", b"application/json"), (b"content-length", b"2"), (b"set-cookie", b"srvsession=LEAKED-BY-THE-SERVER; Path=/"), (b"etag", b'"v1"')]})
         await send({"type": "http.response.body", "body": b"{}"})
